@@ -184,11 +184,8 @@ DoRecv(w, side, ch) ==
 (***************************************************************************)
 (* update  (remote_connection.rs:354, unreliable.rs:197)                   *)
 (***************************************************************************)
-\* the stale sweep walks ids in ascending order and stops at the first fresh one (mirrors the code)
-RECURSIVE StaleIds(_, _, _)
-StaleIds(last, ids, now) ==
-    IF ids = <<>> THEN {}
-    ELSE IF now - last[Head(ids)] >= HORIZON THEN {Head(ids)} \cup StaleIds(last, Tail(ids), now) ELSE {}
+\* every incomplete message without a slice for 3 s is discarded (unreliable.rs:197)
+StaleIds(last, ids, now) == {ids[j] : j \in {x \in 1..Len(ids) : now - last[ids[x]] >= HORIZON}}
 
 SweepUnreliable(r, now) ==
     LET lost == StaleIds(r.last, SortedSeq(DOMAIN r.last), now)
